@@ -43,7 +43,7 @@ def prob_list(draw, family, k):
 LOWER = 'abcxyz' + 'éñ' + 'яжд' + 'ωλ' + 'ß\ufb01'      # incl. letters whose upper-case form is longer (ß -> SS, ﬁ -> FI)
 DIGITS = '0123456789'
 OTHER = '!@#$.-_ *' + '€' + '\U0001F600' + '§' + '%' + '\u00ad' + '\x7f'       # incl. % (interpolation syntax), soft hyphen and DEL (not printable)
-KEYB = 'qwe123asd!@#zxc'
+KEYB = 'qwe123asd!@#zxcQAZ'                         # incl. walks typed with the shift key held
 YEARS = ['19%02d' % i for i in range(60, 100, 3)] + ['20%02d' % i for i in range(0, 25, 2)]
 CONTEXT = [';p', ':p', '*0*', '#1', 'No.1', 'no.1', 'No.', 'i<3', 'I<3', '<3', 'Mr.', 'mr.', 'MR.', 'MS.', 'Ms.',
            'ms.', 'Mz.', 'mz.', 'MZ.', 'St.', 'st.', 'Dr.', 'dr.']
